@@ -417,6 +417,8 @@ func init() {
 				e2run("map-3c-ahead-d4", e2p{Clients: 3, Type: "map", Prefix: "ahead", Modes: []string{"soc", "subscribe"}, Oracles: o}, 4, 0),
 				e2run("counter-2c-ahead-txfail-d5", e2p{Clients: 2, Type: "counter", Prefix: "ahead", Alpha: "one txfail", Oracles: o}, 5, 0),
 				e2run("list-2c-joined-txfail-d4", e2p{Clients: 2, Type: "list", Prefix: "joined", Alpha: "txfail", Oracles: o}, 4, 0),
+				e2run("list-2c-long-d3", e2p{Clients: 2, Type: "list", Prefix: "long", Alpha: "mid", Oracles: o}, 3, 0),
+				e2run("doc-3c-long-d3", e2p{Clients: 3, Type: "doc", Prefix: "long", Oracles: o}, 3, 0),
 			}
 		} else {
 			p.BudgetS = 3300
@@ -459,6 +461,8 @@ func init() {
 				e2run("counter-1c-d5", e2p{Clients: 1, Type: "counter", Resend: true, Oracles: o}, 5, 0),
 				e2run("counter-2c-joined-readers-d4", e2p{Clients: 2, Type: "counter", Prefix: "joined", Readers: 2, Alpha: "one", Oracles: o}, 4, 0),
 				e2run("counter-2c-joined-lostresponse-d5", e2p{Clients: 2, Type: "counter", Prefix: "joined", SyncFaults: []string{"drop", "dup"}, MaxFault: 2, Alpha: "one", Oracles: o}, 5, 0),
+				e2run("counter-3c-long-d4", e2p{Clients: 3, Type: "counter", Prefix: "long", Resend: true, Alpha: "one", Oracles: o}, 4, 0),
+				e2run("list-2c-long-readers-d3", e2p{Clients: 2, Type: "list", Prefix: "long", Readers: 2, Oracles: o}, 3, 0),
 			}
 		} else {
 			p.BudgetS = 3300
